@@ -66,9 +66,48 @@ def midpoint_cases(rng, mant, expb, n):
     return out
 
 
+def dyadic_cases(rng, mant, n):
+    """Exactly dyadic values written with a non-zero scale: coefficient = m * 5^s at scale s (value m / 2^s). m carries
+    1..40 more significant bits than the float format; the extra bits are: every pattern of up to 4 bits (1/16 ... 15/16
+    ulp), a midpoint pattern 1000...0 followed by a tiny tail (a value just beside the midpoint, the tail below the
+    resolution of the NEXT wider float type), all ones, and random. Both parities of the kept significand."""
+    out = []
+    for _ in range(n):
+        s = rng.randrange(1, 19)
+        f5 = 5 ** s
+        mbits_max = (M // f5).bit_length() - 1
+        extra = rng.choice((1, 2, 3, 4, 5, 8, 13, 29, 30, 37, 40, rng.randrange(1, 60)))
+        if mant + extra > mbits_max:
+            extra = mbits_max - mant
+        if extra < 1:
+            continue
+        kept = rng.getrandbits(mant - 1) | (1 << (mant - 1))
+        if rng.random() < 0.3:
+            kept = rng.choice(((1 << mant) - 1, 1 << (mant - 1), (1 << mant) - 2, kept | 1, kept & ~1))
+        k = rng.randrange(6)
+        if k == 0 and extra <= 4:
+            tails = list(range(1 << extra))
+        elif k == 1:
+            tails = [(1 << (extra - 1)) + 1, (1 << (extra - 1)) - 1, 1 << (extra - 1)]            # midpoint +- one unit
+        elif k == 2:
+            tails = [(1 << (extra - 1)) | (1 << rng.randrange(0, extra)), (1 << (extra - 1)) | rng.getrandbits(max(1, extra - 30))]
+        elif k == 3:
+            tails = [(1 << extra) - 1, 1, (1 << extra) - 2]
+        else:
+            tails = [rng.getrandbits(extra), (1 << (extra - 1)) | rng.getrandbits(extra - 1 if extra > 1 else 1) % (1 << (extra - 1))]
+        for t in tails:
+            m = (kept << extra) | (t & ((1 << extra) - 1))
+            c = m * f5
+            if 0 < c <= M:
+                out.append((c if rng.random() < 0.7 else -c, s))
+    return out
+
+
 def constructed(rng):
     out = []
     for op, mant in (("tof64", 53), ("tof32", 24)):
+        for c, s in dyadic_cases(rng, mant, 1500):
+            out.append("%s %s dyadic" % (op, G.fD(c, s)))
         for c, s in midpoint_cases(rng, mant, None, 300):
             out.append("%s %s mid" % (op, G.fD(c, s)))
         # powers of two straddled
@@ -124,6 +163,9 @@ def gen(rng, tier, shard, batch):
                     reqs.append("%s %s hard" % (op, G.fD(c if rng.random() < 0.5 else -c, s)))
                     if rng.random() < 0.2:
                         reqs.append("%s %s hard" % (op, G.fD(c + rng.choice((1, -1)), s)))
+    for op, mant in (("tof64", 53), ("tof32", 24)):
+        for c, s in dyadic_cases(rng, mant, 150 if tier == "quick" else 600):
+            reqs.append("%s %s dyadic" % (op, G.fD(c, s)))
     for _ in range(N_RANDOM[tier]):
         c, s = G.dec(rng)
         reqs.append("%s %s" % (rng.choice(("tof64", "tof32")), G.fD(c, s)))
